@@ -14,6 +14,7 @@ import Rrss.Interp
 import Rrss.ErrorDisplay
 import Rrss.Lint
 import Rrss.Visit
+import Rrss.TreeParse
 open Rrss
 
 abbrev F := Float
@@ -143,30 +144,45 @@ def parseSrc (src : Str) : Outcome (Parser.ParseErr F) (Program F) := Parser.par
 def parseErrShort (e : Parser.ParseErr F) : String :=
   S e.codeName ++ " " ++ toString e.line
 
+/-- the tree of a `…t` request: `xHEX` of the s-expression that `parse` prints -/
+def treeField (f : String) : Option (Program F) := (textField f).bind TreeParse.program
+
+/-- `run` from the parse result on; `wF rF stepsF` are the request fields W R STEPS -/
+def runParsed (parsed : Outcome (Parser.ParseErr F) (Program F)) (input : Str) (wF rF stepsF : String) : String :=
+  let w : Option Nat := if wF == "-" then none else wF.toNat?
+  let r : Option Nat := if rF == "-" then none else rF.toNat?
+  let steps := stepsF.toNat?.getD 100000
+  match parsed with
+  | .err e => "parseerr " ++ parseErrShort e ++ " x 0"
+  | .crash s => "crash " ++ toString (repr s) ++ " x 0"
+  | .fuel => "fuel x 0"
+  | .resource => "resource x 0"
+  | .ok prog =>
+    let env : Env F := { input := input, wbudget := w, readFault := r, steps := steps }
+    let fuel := 2000
+    let (res, env') := Interp.execProgram fuel prog env
+    let tail := " x" ++ hexOfBytes env'.out ++ " " ++ toString env'.handed
+    match res with
+    | .ok _ => "ok" ++ tail
+    | .err e => "rterr " ++ S e.className ++ " " ++ xs e.render ++ tail
+    | .crash s => "crash " ++ toString (repr s) ++ tail
+    | .fuel => "fuel" ++ tail
+    | .resource => "resource" ++ tail
+
 def handleRun (args : List String) : String :=
   match args with
   | [srcF, inF, wF, rF, stepsF] =>
     match textField srcF, textField inF with
-    | some src, some input =>
-      let w : Option Nat := if wF == "-" then none else wF.toNat?
-      let r : Option Nat := if rF == "-" then none else rF.toNat?
-      let steps := stepsF.toNat?.getD 100000
-      match parseSrc src with
-      | .err e => "parseerr " ++ parseErrShort e ++ " x 0"
-      | .crash s => "crash " ++ toString (repr s) ++ " x 0"
-      | .fuel => "fuel x 0"
-      | .resource => "resource x 0"
-      | .ok prog =>
-        let env : Env F := { input := input, wbudget := w, readFault := r, steps := steps }
-        let fuel := 2000
-        let (res, env') := Interp.execProgram fuel prog env
-        let tail := " x" ++ hexOfBytes env'.out ++ " " ++ toString env'.handed
-        match res with
-        | .ok _ => "ok" ++ tail
-        | .err e => "rterr " ++ S e.className ++ " " ++ xs e.render ++ tail
-        | .crash s => "crash " ++ toString (repr s) ++ tail
-        | .fuel => "fuel" ++ tail
-        | .resource => "resource" ++ tail
+    | some src, some input => runParsed (parseSrc src) input wF rF stepsF
+    | _, _ => "bad"
+  | _ => "bad"
+
+/-- `runt`: `run` on a given tree -/
+def handleRunT (args : List String) : String :=
+  match args with
+  | [treeF, inF, wF, rF, stepsF] =>
+    match treeField treeF, textField inF with
+    | some prog, some input => runParsed (.ok prog) input wF rF stepsF
     | _, _ => "bad"
   | _ => "bad"
 
@@ -174,14 +190,16 @@ def encDiag (d : Diag) : String :=
   toString d.line ++ "," ++ xs d.issue ++ "," ++ toString d.suggestions.length ++
     String.join (d.suggestions.map fun s => "," ++ xs s)
 
-def handleLint (src : Str) : String :=
-  match parseSrc src with
+def lintParsed (parsed : Outcome (Parser.ParseErr F) (Program F)) : String :=
+  match parsed with
   | .err e => "parseerr " ++ parseErrShort e
   | .ok prog =>
     match Lint.run prog with
     | .ok ds => "ok " ++ toString ds.length ++ " " ++ ";".intercalate (ds.map encDiag)
     | o => outcomeWord o
   | o => outcomeWord o
+
+def handleLint (src : Str) : String := lintParsed (parseSrc src)
 
 def foldErrName : FoldErr → String
   | .noType => "NoType"
@@ -237,8 +255,8 @@ def encEvent : Event F → String
   | .disp .pushRhs => "U"
   | .disp .popExpr => "O"
 
-def handleWalk (src : Str) (failF : String) : String :=
-  match parseSrc src with
+def walkParsed (parsed : Outcome (Parser.ParseErr F) (Program F)) (failF : String) : String :=
+  match parsed with
   | .ok prog =>
     let failAt : Option Nat := if failF == "-" then none else failF.toNat?
     let (res, st) := Walk.program (recorder F) prog { failAt := failAt }
@@ -248,6 +266,8 @@ def handleWalk (src : Str) (failF : String) : String :=
     | .error i => "err " ++ toString i ++ " " ++ evs
   | .crash s => "crash " ++ toString (repr s)
   | _ => "bad"
+
+def handleWalk (src : Str) (failF : String) : String := walkParsed (parseSrc src) failF
 
 def errClass (e : ValErr F) : String := "err:" ++ S e.className
 
@@ -344,6 +364,19 @@ def handle (line : String) : String :=
   | ["walk", f, fail] =>
     match textField f with
     | some src => handleWalk src fail
+    | none => "bad"
+  | ["dumpt", f] =>
+    match treeField f with
+    | some prog => "ok " ++ S (Dump.program prog)
+    | none => "bad"
+  | ["walkt", f, fail] =>
+    match treeField f with
+    | some prog => walkParsed (.ok prog) fail
+    | none => "bad"
+  | "runt" :: args => handleRunT args
+  | ["lintt", f] =>
+    match treeField f with
+    | some prog => lintParsed (.ok prog)
     | none => "bad"
   | "val" :: args => handleVal args
   | ["fmt", bits] =>
